@@ -230,6 +230,51 @@ func cmdCheck(args []string) int {
 			}(r)
 		}
 		wg.Wait()
+		// Second pass for a previously verified function that now writes, inside a loop, a kind of
+		// location its loop frame does not list (a new local map, say): rather than trusting or
+		// rejecting the frame, verify the function again with those locations simply havocked by
+		// the loop.  If everything else still proves, the new writes do not matter to the proof.
+		base := loadBaseline(vdir)
+		inBase := map[string]bool{}
+		for _, n := range base.Discharged[*prop] {
+			inBase[n] = true
+		}
+		for ri, r := range results {
+			if r.Err != nil || r.Contract == nil || r.VC == nil || r.Relaxed != nil {
+				continue
+			}
+			relax := map[string]bool{}
+			for _, o := range r.VC.Obls {
+				if o.Kind == "frame" && o.Status != "unsat" && o.Status != "sat" && !inBase[o.Name] && unitInBaseline(inBase, o.Name) {
+					if i := strings.Index(o.Name, ".local."); i >= 0 {
+						relax[strings.SplitN(o.Name[i+len(".local."):], "~", 2)[0]] = true
+					}
+				}
+			}
+			if len(relax) == 0 {
+				continue
+			}
+			opts := engine.Options{Thorough: *tier == "thorough", GuardedMerge: os.Getenv("NRIVERIF_ITEMERGE") == "", RelaxFrame: relax}
+			r2 := prog.VerifyFunc(r.Contract, opts)
+			if r2.Err != nil {
+				continue
+			}
+			so := engine.SolveOpts{CacheDir: cacheDir, WorkDir: work, TimeoutMs: *timeout, SecondOpin: *tier == "thorough", Seed: seed, NoEscalate: *noesc}
+			if so.TimeoutMs == 0 {
+				so.TimeoutMs = 10000
+				if *tier == "thorough" {
+					so.TimeoutMs = 30000
+				}
+			}
+			if err := engine.Solve(r2.VC, so); err != nil {
+				continue
+			}
+			for k := range relax {
+				r2.Relaxed = append(r2.Relaxed, k)
+			}
+			sort.Strings(r2.Relaxed)
+			results[ri] = r2
+		}
 	}
 	// evidence and baselines are records of /repo itself, of a whole property, on a tree that is
 	// not being experimented with: nothing is written for partial runs, other repositories, or
@@ -325,6 +370,9 @@ func report(vdir, prop, tier string, seed int, results []*engine.UnitResult, t0 
 
 	sort.Slice(results, func(i, j int) bool { return results[i].Unit < results[j].Unit })
 	for _, r := range results {
+		if len(r.Relaxed) > 0 {
+			notes = append(notes, fmt.Sprintf("%s writes locations in a loop that its loop frame does not list (%s); verified again with those locations havocked by the loop, results below are from that pass", r.Unit, strings.Join(r.Relaxed, ", ")))
+		}
 		if r.Err != nil {
 			// a unit whose obligations were discharged on the unchanged tree and whose contract
 			// no longer binds to the code (loop removed, callee changed, ...) fails verification
